@@ -45,7 +45,9 @@ Definition allowed_of (r : resource) (suffix : option str) : list str :=
 Definition spec_responder (r : resource) (suffix : option str) (m : str) : option responder :=
   if implements r suffix m then Some (RMethod (responder_name m suffix))
   else if str_eqb m s_OPTIONS then Some (ROptions (allowed_of r suffix))
-  else if mem m COMBINED_METHODS then Some (RNotAllowed (allowed_of r suffix ++ [s_OPTIONS]))
+  else if mem m COMBINED_METHODS then
+    Some (RNotAllowed (if implements r suffix s_OPTIONS then allowed_of r suffix
+                       else allowed_of r suffix ++ [s_OPTIONS]))
   else None.
 
 (* ---- oracle: the observed outcome is the model's *)
